@@ -3014,6 +3014,25 @@ class TensorDict(TensorDictBase):
                 or dtype is None
                 or shape is None
             ):
+                if (
+                    dtype is not None
+                    and shape is not None
+                    and not entry_metadata.get("is_nested", False)
+                    and torch.Size(shape).numel() == 0
+                ):
+                    # a tensor without elements has no file (a file cannot be
+                    # memory-mapped with a null size) but must still be restored
+                    result._set_str(
+                        key,
+                        torch.zeros(
+                            torch.Size(shape),
+                            dtype=_STRDTYPE2DTYPE[dtype],
+                            device=device,
+                        ),
+                        validated=True,
+                        inplace=False,
+                        non_blocking=False,
+                    )
                 # invalid dict means
                 continue
             try:
